@@ -49,6 +49,11 @@ Next ==
              c' = [kind |-> "op", usage |-> u, ext |-> f, cmd |-> cmd, spelling |-> cmd, state |-> "intact", cwd |-> "setdir", path |-> "rel",
                    index_ok |-> TRUE, inputs_ok |-> TRUE, needed |-> FALSE, possible |-> TRUE, iofail |-> FALSE]
 
+     \* create with a single operand names no data file: a usage error whatever that operand looks like
+     \/ \E u \in {"oneoperand", "oneoperand_noext", "oneoperand_upper", "oneoperand_noextflags"}, f \in Formats :
+             c' = [kind |-> "op", usage |-> u, ext |-> f, cmd |-> "create", spelling |-> "create", state |-> "intact", cwd |-> "setdir", path |-> "rel",
+                   index_ok |-> TRUE, inputs_ok |-> TRUE, needed |-> FALSE, possible |-> TRUE, iofail |-> FALSE]
+
 IsCase == c.kind = "op"
 C20_NonEmpty == IsCase => Admissible(c) # {}
 C20_ZeroOnlyOnSuccess ==
